@@ -1171,6 +1171,191 @@ def c11_all(mir, ctx):
     return c11_b64_group(mir, ctx) + protocol_groups(mir, ctx, {"reject"})
 
 
+# --------------------------------------------------------------------------
+# C07: the validation gate of Insert::exec (bounded unrolling of its loops)
+# --------------------------------------------------------------------------
+
+def c07_insert_gate_group(mir, ctx):
+    """The validation phase of Insert::exec -- from the table lookup to the point where it starts
+    reading/mutating (Table::stream_name) -- with its loops unrolled (each block at most 3 times per
+    path), rows/columns/values as opaque objects, lengths symbolic, `Column::is_valid_value` an
+    uninterpreted predicate.  Iterators are modelled by (underlying collection, position), kept in
+    the per-path heap: the k-th element of a collection has ONE identity however often and however
+    (iter, zip, enumerate, indexing) it is visited, so the laws do not depend on how the loops are
+    written (one pass or several)."""
+    cands = [f for n, fs in mir.fns.items() for f in fs if n.endswith("::exec") and f.args and "Insert" in f.args[0][1]]
+    if len(cands) != 1:
+        raise EncodingError("Insert::exec not found uniquely in the MIR dump (%d)" % len(cands))
+    fn = cands[0]
+    lens = {}
+
+    def memo_len(key):
+        if key not in lens:
+            lens[key] = ctx.fresh_int("len_" + re.sub(r"\W+", "_", key)[-24:], "usize")
+        return lens[key]
+
+    def what_of(ex, a):
+        v = ex.load(a)
+        return getattr(v, "what", repr(v))
+
+    def coll(desc):
+        """canonical name of the underlying collection of a slice / vec / deref'd object"""
+        d = desc
+        while d.startswith("slice:"):
+            d = d[len("slice:"):]
+        return d
+
+    def m_iter(ex, callee, args, pc, events):
+        its = ex.heap.setdefault("$iters", [])
+        its.append(0)
+        return [(pc, events, OpaqueV("it#%d|%s" % (len(its) - 1, coll(what_of(ex, args[0])))))]
+
+    def m_into_iter(ex, callee, args, pc, events):
+        w = what_of(ex, args[0])
+        if w.startswith(("it#", "zip(", "enum(")):
+            return [(pc, events, args[0])]
+        return m_iter(ex, callee, args, pc, events)
+
+    def m_zip(ex, callee, args, pc, events):
+        return [(pc, events, OpaqueV("zip(%s,%s)" % (what_of(ex, args[0]), what_of(ex, args[1]))))]
+
+    def m_enumerate(ex, callee, args, pc, events):
+        return [(pc, events, OpaqueV("enum(%s)" % what_of(ex, args[0])))]
+
+    def split2(inner):
+        depth = 0
+        for i, ch in enumerate(inner):
+            if ch == "(":
+                depth += 1
+            elif ch == ")":
+                depth -= 1
+            elif ch == "," and depth == 0:
+                return inner[:i], inner[i + 1:]
+        raise EncodingError("zip descriptor %r" % inner)
+
+    def advance(ex, desc, evs):
+        """-> (item value, position) for the iterator described by desc; advances it in the heap"""
+        if desc.startswith("zip("):
+            a, b = split2(desc[4:-1])
+            va, _pa = advance(ex, a, evs)
+            vb, _pb = advance(ex, b, evs)
+            return TupleV([va, vb]), None
+        if desc.startswith("enum("):
+            v, pos = advance(ex, desc[5:-1], evs)
+            return TupleV([M.mk_int(pos, "usize"), v]), pos
+        mm = re.match(r"^it#(\d+)\|(.*)$", desc)
+        if not mm:
+            raise EncodingError("iterator descriptor %r" % desc)
+        iid, under = int(mm.group(1)), mm.group(2)
+        pos = ex.heap["$iters"][iid]
+        ex.heap["$iters"][iid] = pos + 1
+        ident = "%s[%d]" % (under, pos)
+        evs.append(("elem", ident))
+        return OpaqueV(ident), pos
+
+    def m_next(ex, callee, args, pc, events):
+        desc = what_of(ex, args[0])
+        saved = copy_heap(ex)
+        evs = []
+        item, _ = advance(ex, desc, evs)
+        hp_some = copy_heap(ex)
+        ex.heap = saved
+        return [(pc, events + evs, EnumV(variant=1, fields=[item]), hp_some),
+                (pc, events + [("iter-done", desc)], EnumV(variant=0, fields=[]), copy_heap(ex))]
+
+    def copy_heap(ex):
+        import copy as _c
+        return _c.deepcopy(ex.heap)
+
+    def m_index(ex, callee, args, pc, events):
+        base = coll(what_of(ex, args[0]))
+        idx = ex.load(args[1])
+        if isinstance(idx, IntV) and idx.const is not None:
+            ident = "%s[%d]" % (base, idx.const)
+        else:
+            ident = "%s[?%s]" % (base, getattr(idx, "term", repr(idx)))
+        return [(pc, events + [("elem", ident)], OpaqueV(ident))]
+
+    def m_len(ex, callee, args, pc, events):
+        return [(pc, events, memo_len(coll(what_of(ex, args[0]))))]
+
+    def m_is_valid_value(ex, callee, args, pc, events):
+        b = ctx.fresh_bool("valid")
+        return [(pc, events + [("is_valid_value", what_of(ex, args[0]), what_of(ex, args[1]), b.term)], BoolV(b.term))]
+
+    def m_get_table(ex, callee, args, pc, events):
+        return [(pc, events, EnumV(variant=1, fields=[OpaqueV("rc-table")])), (pc, events + [("no-such-table",)], EnumV(variant=0, fields=[]))]
+
+    def m_deref(ex, callee, args, pc, events):
+        return [(pc, events, OpaqueV("slice:" + coll(what_of(ex, args[0]))))]
+
+    models = [
+        (r"BTreeMap::<String, Rc<Table>>::get::<", m_get_table),
+        (r"<Rc<Table> as Deref>::deref$", lambda ex, callee, args, pc, events: [(pc, events, OpaqueV("table"))]),
+        (r"as Deref>::deref$", m_deref),
+        (r"Table::columns$", lambda ex, callee, args, pc, events: [(pc, events, OpaqueV("slice:columns"))]),
+        (r"impl \[.*\]>::iter$", m_iter), (r"as IntoIterator>::into_iter$", m_into_iter),
+        (r"as Iterator>::zip::<", m_zip), (r"as Iterator>::enumerate$", m_enumerate), (r"as Iterator>::next$", m_next),
+        (r"as Index<usize>>::index$", m_index),
+        (r"Vec::<.*>::len$|impl \[.*\]>::len$", m_len), (r"Column::is_valid_value$", m_is_valid_value),
+        (r"Column::name$", lambda ex, callee, args, pc, events: [(pc, events, OpaqueV("column-name"))]),
+    ]
+
+    def stop_at(f, bb, term):
+        if "Table::stream_name" in term:
+            return "proceed"
+        if "std::io::Error::new::<" in term:
+            return "error"
+        return None
+
+    ex = M.Exec(mir, ctx, models=models, stop_at=stop_at, havoc_unknown=True)
+    ex.max_revisit = 3
+    from .mir_protocol import struct_fields
+    qsrc = open(os.path.join(REPO, "src/internal/query.rs")).read()
+    ifields = struct_fields(qsrc, "Insert")
+    ex.new_obj("insert", [OpaqueV("insert." + f) for f in ifields])
+    outs = ex.run(fn, [M.ObjV("insert"), OpaqueV("comp"), OpaqueV("pool"), OpaqueV("tables")])
+    from .mir_protocol import _confirm as _scenarios
+    g = Group("insert_gate", ["query::Insert::exec (validation phase, loops unrolled)"], confirm=_scenarios,
+              note="Insert::exec starts reading/mutating only after, for every row of the batch it visited, the arity equals the number of "
+                   "columns and Column::is_valid_value returned true for every value of that row; any failure is an error before any mutation")
+    rows_coll = "insert.new_rows"
+    nproceed = 0
+    for k, o in enumerate(outs):
+        if o.kind == "panic":
+            g.queries.append(Query("panic_%d" % k, o.pc, "unsat", note=o.msg))
+            continue
+        if o.kind != "stopped" or o.msg != "proceed":
+            continue
+        nproceed += 1
+        evs = o.events
+        elems = [e[1] for e in evs if e[0] == "elem"]
+        rows = sorted(set(x for x in elems if re.fullmatch(re.escape(rows_coll) + r"\[\d+\]", x)))
+        values = sorted(set(x for x in elems if re.fullmatch(re.escape(rows_coll) + r"\[\d+\]\[[^\]]+\]", x)))
+        valids = [e for e in evs if e[0] == "is_valid_value"]
+        colslen = lens.get("columns") or getattr(ex, "_memo", {}).get("len:Opaque(slice:columns)")
+        for r in rows:
+            if r in lens and colslen is not None:
+                g.queries.append(Query("arity_%d_%s" % (k, re.sub(r"\W+", "_", r)), o.pc + ["(not (= %s %s))" % (lens[r].term, colslen.term)],
+                                       "unsat", note="a row whose number of values differs from the number of columns gets past the gate"))
+            else:
+                g.queries.append(Query("arity_unchecked_%d_%s" % (k, re.sub(r"\W+", "_", r)), o.pc, "unsat",
+                                       note="the arity of a visited row is never compared with the number of columns"))
+        for v in values:
+            mine = [e2 for e2 in valids if e2[2] == v]
+            if not mine:
+                g.queries.append(Query("unvalidated_%d_%s" % (k, re.sub(r"\W+", "_", v)), o.pc, "unsat",
+                                       note="a value of the batch gets past the gate without Column::is_valid_value being asked about it"))
+            else:
+                # at least one of the verdicts about this value must be implied true
+                g.queries.append(Query("invalid_passes_%d_%s" % (k, re.sub(r"\W+", "_", v)), o.pc + [s_not(s_and([m[3] for m in mine]))], "unsat",
+                                       note="a value for which Column::is_valid_value returned false gets past the gate"))
+        g.witness.append(Query("w_%d" % k, o.pc, "sat"))
+    if nproceed < 3:
+        raise EncodingError("insert gate: only %d paths reach the mutation phase" % nproceed)
+    return [g]
+
+
 def _proto(which):
     def build(mir, ctx):
         from .mir_protocol import protocol_groups
@@ -1180,7 +1365,7 @@ def _proto(which):
 
 BUILDERS = {"C18": c18_groups, "C19": c19_groups, "C14": c14_groups, "C20": c20_all, "C09": c20_groups,
             "C01": _proto({"mutators", "finish", "close"}), "C10": _proto({"mutators", "finish"}),
-            "C15": _proto({"finish", "close"}), "C16": _proto({"readonly"}), "C08": _proto({"drop_table"}), "C04": _proto({"reject"}), "C11": c11_all}
+            "C15": _proto({"finish", "close"}), "C16": _proto({"readonly"}), "C08": _proto({"drop_table"}), "C04": _proto({"reject"}), "C11": c11_all, "C07": c07_insert_gate_group}
 
 
 def native_confirm_c18(vals, work):
